@@ -52,6 +52,17 @@ CLAIMS = {
              "matrix. Configuration independence for exactly these helpers (kernel).",
         note="Trusted: as C03/C04. Unverified: optimisation levels, Limited API, CYTHON_* feature macros outside the helpers under contract.",
         ref="4 C39"),
+    "C48": dict(
+        text="Proof (loop invariant over an arbitrary-order dict iteration with a ghost 'seen' set) that "
+             "CompilationOptions.get_fingerprint puts EVERY attribute of the options object that the statement does not allow to be "
+             "ignored - in particular language_level and compiler_directives - into the fingerprint data with its value, or raises "
+             "NotImplementedError; so two option objects differing in such an attribute cannot share a cythonize cache key. Kernel: "
+             "this key builder only.",
+        note="Trusted: dv Python front end (strings abstracted to interned identities, option values to opaque identities), z3; "
+             "to_fingerprint/repr/sha256 assumed injective on the option-value domain. NOT covered (unverified surround, see DESIGN.md): "
+             "Cache.file_hash memoisation across compilations in one process, transitive_fingerprint's dependency walk, "
+             "Inline._inline_key call sites (the key omits cython_compiler_directives), cache lookup/store I/O.",
+        ref="4 C48"),
     "C38": dict(
         text="Proof for ALL integers (unbounded) that the interpreted fallbacks Shadow.cdiv / Shadow.cmod compute C truncating division "
              "and remainder - the same spec functions the compiled cdivision code is proved against in C03 - and raise ZeroDivisionError "
